@@ -76,6 +76,26 @@ def ExtAttrs.hasCritical : ExtAttrs → Bool
   | .critical | .criticalAndNonCritical => true
   | _ => false
 
+/-- `signatureVerification.verifyTimestamp` of the applicable policy statement -/
+inductive VerifyTimestamp | unset | always | afterCertExpiry
+  deriving DecidableEq, Repr, FromJson, ToJson
+
+/-- the shape of the trust policy statement the verification runs under (it always trusts the signer: the `ca:`
+store with the root, wildcard or exact identity, level strict, revocation skipped) -/
+structure Policy where
+  tsaStore : Bool                   -- the statement also names a `tsa:` trust store
+  verifyTimestamp : VerifyTimestamp
+  named : Bool                      -- oci: exact registry scope instead of `*`; blob: a named statement instead of the global one
+  deriving DecidableEq, Repr, FromJson, ToJson
+
+/-- other calls of the library in flight while this round trip runs (must not matter) -/
+inductive InFlight
+  | alone          -- nothing else runs
+  | pinnedFirst    -- interleaved with another blob call: this one reads first, is suspended, resumes after the other
+  | pinnedSecond   -- the other one of such a pair
+  | freeRunning    -- one of many goroutines signing and verifying at the same time
+  deriving DecidableEq, Repr, FromJson, ToJson
+
 /-- how the key behind the signer object was selected for this call -/
 inductive KeyVia
   | fixed          -- the signer object is bound to the key (local signers)
@@ -170,6 +190,8 @@ structure Input where
   trailingNewline : Bool      -- blob, JWS: a line break is appended to the envelope before verification (must not matter)
   extAttrs : ExtAttrs         -- envelope plugin only: the extended signed attributes the plugin adds
   timeZone : String           -- time.Local of the signing process (IANA name; must not matter: expiry is an instant)
+  policy : Policy             -- shape of the applicable trust policy statement
+  inFlight : InFlight         -- concurrency around this round trip (must not matter)
   deriving Repr, FromJson, ToJson
 
 structure Obs where
@@ -559,6 +581,12 @@ def userMetadataOf (p : DescObs) : List KV :=
 def noSignature : Obs :=
   { signed := false, verified := false, payload := none, expirySec := none, returned := none, userMetadata := none }
 
+/-- verifier.verifyTimestamp for a signature made WITHOUT a timestamper (what the signing API of this model
+produces) by certificates that are still valid: timestamp verification is performed - and fails, there is no
+countersignature - exactly when the statement names a tsa store and does not postpone it until the chain expired -/
+def timestampDemanded (i : Input) : Bool :=
+  i.policy.tsaStore && i.policy.verifyTimestamp != .afterCertExpiry
+
 /-- sign, then verify `lagSec` seconds after the signing time -/
 def runWith (C : Crypto) (key : C.Key) (trust : C.Pub → Bool) (nowNs : Int) (i : Input) : Obs :=
   match signModel C key i nowNs with
@@ -568,12 +596,13 @@ def runWith (C : Crypto) (key : C.Key) (trust : C.Pub → Bool) (nowNs : Int) (i
     let exp := e.attrs.expiry.map (· - e.attrs.signingTime)
     match i.kind with
     | .oci =>
-      let ok := verifyOCI trust nowSec i.desc (wantedMetadata i) e
+      let ok := !timestampDemanded i && verifyOCI trust nowSec i.desc (wantedMetadata i) e
       { signed := true, verified := ok, payload := some e.attrs.payload, expirySec := exp,
         returned := if ok then some (fullObs i.desc) else none,
         userMetadata := if ok then some (userMetadataOf e.attrs.payload) else none }
     | .blob =>
-      match verifyBlob trust nowSec i.blob (copyLoop i.verifyReader.steps) (statedMediaType i) (wantedMetadata i) e with
+      match (if timestampDemanded i then none
+             else verifyBlob trust nowSec i.blob (copyLoop i.verifyReader.steps) (statedMediaType i) (wantedMetadata i) e) with
       | some r =>
         { signed := true, verified := true, payload := some e.attrs.payload, expirySec := exp,
           returned := some r, userMetadata := some (userMetadataOf e.attrs.payload) }
@@ -720,7 +749,8 @@ def clauses (i : Input) (o : Obs) : Clauses :=
   [ ("input_well_formed", wf i),
     ("signs_iff_arguments_legal", o.signed == legal i),
     ("signed_then_verifies",
-      !(o.signed && consistentVerify i && !expiredAtVerify i && !unprocessedCritical i) || o.verified),
+      !(o.signed && consistentVerify i && !expiredAtVerify i && !unprocessedCritical i && !timestampDemanded i) ||
+        o.verified),
     ("unprocessed_critical_attribute_fails", !(o.signed && unprocessedCritical i) || !o.verified),
     ("verified_only_if_signed", !o.verified || o.signed),
     ("payload_is_sanitised_descriptor_with_metadata",
